@@ -17,20 +17,29 @@ int main(int argc,char **argv){
   int thorough=argc>1&&!strcmp(argv[1],"thorough"); long pairs=0,bad=0,fd=0,fe=0; long dim;
   struct itimerval it; signal(SIGVTALRM,on_alarm);
   for(dim=1;dim<=65535;dim++){
-    long maxe; int budget=24-ilg(dim); long e,step;
+    long maxe; int budget=24-ilg(dim); long e; int dense=(dim<=(thorough?24:8));
+    long cand[256]; int nc=0,ci;
     if(budget<1)break;
+    /* dims above 64: powers of two and their neighbours only (each call is O(dim)) */
+    if(dim>64&&!(((dim&(dim-1))==0)||(((dim+1)&dim)==0)||(((dim-1)&(dim-2))==0)||dim==1000||dim==10000))continue;
     maxe=(1L<<budget)-1;
-    /* dims <= 24 (quick: <= 8 dense up to 2^16) densely; larger dims: boundary entries only */
-    for(e=1;e<=maxe;e++){
+    if(!dense||!thorough){
+      /* boundary set: 1,2,3, maxe-1, maxe, powers of two +-1, r^dim +-1 for r=2..6 */
+      int k; long r;
+      cand[nc++]=1; cand[nc++]=2; cand[nc++]=3; cand[nc++]=maxe; if(maxe>1)cand[nc++]=maxe-1;
+      for(k=1;k<budget;k++){ long p=1L<<k; cand[nc++]=p; if(p>1)cand[nc++]=p-1; if(p+1<=maxe)cand[nc++]=p+1; }
+      for(r=2;r<=6;r++){ unsigned __int128 acc=1; int i,over=0; for(i=0;i<dim;i++){ acc*=r; if(acc>(unsigned __int128)maxe+1){ over=1; break; } } if(!over){ long v=(long)acc; if(v<=maxe)cand[nc++]=v; if(v-1>=1&&v-1<=maxe)cand[nc++]=v-1; if(v+1<=maxe)cand[nc++]=v+1; } }
+    }
+    for(ci=0;;ci++){
       static_codebook b; long got,want;
-      if(!(dim<=(thorough?24:8)&&(thorough||e<=65536))){
-        /* boundary set: powers of two +-1, r^dim +-1 for small r, maxe */
-        int keep=(e==maxe)||(e&(e-1))==0||((e+1)&e)==0||(((e-1)&(e-2))==0&&e>2);
-        if(!keep){ long r; for(r=2;r<6&&!keep;r++){ unsigned __int128 acc=1; int i; for(i=0;i<dim&&acc<=(unsigned __int128)maxe+2;i++)acc*=r; if(acc==(unsigned __int128)e||acc==(unsigned __int128)e+1||acc+1==(unsigned __int128)e)keep=1; } }
-        if(!keep)continue;
-      }
+      if(dense&&(thorough||1)){
+        /* dense: every entries value (quick: up to 65536, plus the boundary set above it) */
+        long lim=thorough?maxe:(maxe<65536?maxe:65536);
+        if(ci<lim)e=ci+1; else if(!thorough&&ci-lim<nc){ e=cand[ci-lim]; if(e<=lim)continue; } else break;
+      }else{ if(ci>=nc)break; e=cand[ci]; }
+      if(e<1||e>maxe)continue;
       memset(&b,0,sizeof(b)); b.dim=dim; b.entries=e; g_d=dim; g_e=e;
-      if((pairs&0xfffff)==0){ memset(&it,0,sizeof(it)); it.it_value.tv_sec=20; setitimer(ITIMER_VIRTUAL,&it,NULL); }
+      if((pairs&0xffff)==0){ memset(&it,0,sizeof(it)); it.it_value.tv_sec=30; setitimer(ITIMER_VIRTUAL,&it,NULL); }
       got=_book_maptype1_quantvals(&b); want=ref(e,dim);
       pairs++;
       if(got!=want){ if(!bad){ fd=dim; fe=e; } bad++; }
